@@ -459,6 +459,8 @@ pub fn parse_multiline_text(
                 ),
             });
         }
+        // n*mx: every line is text of the SWIFT x character set
+        parse_swift_chars(line, &format!("Line {}", i + 1))?;
     }
 
     Ok(lines)
